@@ -78,7 +78,7 @@ func propC07(c *Ctx) {
 			fns = append(fns, fn)
 		}
 	}
-	c.Rule("R7.1", "the error of every (*Client).do call is tested; the failing arm leaves with an error and never rejoins the success path", 8)
+	c.Rule("R7.1", "the error of every (*Client).do call is tested; the failing arm leaves with an error and never rejoins the success path", 6)
 	c.Rule("R7.2", "Error.Exists() of each decoded value is tested before any read of its result part", 8)
 	c.Rule("R7.3", "a nullable result pointer is nil-tested before it is dereferenced", 3)
 	existsFn := w.Fn("jrpc2", "Error.Exists")
@@ -408,6 +408,12 @@ func respRootsOf(call *ssa.Call) []respRoot {
 	dest := stripConv(call.Call.Args[3])
 	fn := call.Parent()
 	var out []respRoot
+	// the response object handed in by the caller (a helper shared by two requests: latestHeader(…, hresp *headerResp))
+	if p, isP := dest.(*ssa.Parameter); isP {
+		if f := embedsRPCError(p.Type()); f != nil {
+			return []respRoot{{val: p, errFld: f, desc: "scalar:" + shortType(p.Type())}}
+		}
+	}
 	al, ok := dest.(*ssa.Alloc)
 	if !ok {
 		return nil
